@@ -119,9 +119,17 @@ def perturbations(rng, notes, sigs):
     for j, (k, t, val) in enumerate(sigs):
         if k == "ts":
             out.append(("ts-value", notes, sigs[:j] + [(k, t, (val[0] + 1, val[1]))] + sigs[j + 1:]))
+            out.append(("ts-den", notes, sigs[:j] + [(k, t, (val[0], val[1] * 2))] + sigs[j + 1:]))
+            # same bar length, different signature (4/4 vs 2/2 vs 8/8, 3/4 vs 6/8): still a different value
+            out.append(("ts-scaled", notes, sigs[:j] + [(k, t, (val[0] * 2, val[1] * 2))] + sigs[j + 1:]))
+            if val[0] % 2 == 0 and val[1] % 2 == 0:
+                out.append(("ts-halved", notes, sigs[:j] + [(k, t, (val[0] // 2, val[1] // 2))] + sigs[j + 1:]))
+            other = rng.choice([x for x in [(4, 4), (3, 4), (6, 8), (2, 2), (12, 8), (6, 4), (2, 4), (4, 8), (5, 8), (1, 1)] if x != val])
+            out.append(("ts-other", notes, sigs[:j] + [(k, t, other)] + sigs[j + 1:]))
             out.append(("ts-tick", notes, sigs[:j] + [(k, t + 500, val)] + sigs[j + 1:]))
         else:
             out.append(("ks-value", notes, sigs[:j] + [(k, t, (val + 1) % 15)] + sigs[j + 1:]))
+            out.append(("ks-other", notes, sigs[:j] + [(k, t, rng.choice([x for x in range(15) if x != val]))] + sigs[j + 1:]))
             out.append(("ks-tick", notes, sigs[:j] + [(k, t + 500, val)] + sigs[j + 1:]))
     return out
 
@@ -141,7 +149,7 @@ def generate(ctx):
                                       pitches=[60, 62, 64], max_tick=100, max_dur=30, short_bias=0.1))
         sigs = []
         if rng.random() < 0.6:
-            sigs.append(("ts", rng.choice([0, 96]), rng.choice([(4, 4), (3, 4)])))
+            sigs.append(("ts", rng.choice([0, 96]), rng.choice([(4, 4), (3, 4), (6, 8), (2, 2), (12, 8), (2, 4), (5, 8)])))
         if rng.random() < 0.5:
             sigs.append(("ks", rng.choice([0, 48]), rng.randrange(15)))
         perts = perturbations(rng, notes, sigs)
